@@ -961,6 +961,9 @@ func judgeOp(c *core.Ctx, spec gens.JPExpr, x jp.Expr, before any, sel selection
 	}
 	for _, e := range exps {
 		if eqTree(after, e) {
+			if o.one() && !sel.empty && !eqTree(after, before) {
+				lastOne = "one"
+			}
 			if out.err != nil && !sel.empty {
 				c.Add("error_returned_although_the_expected_state_was_reached", 1)
 			}
@@ -971,6 +974,7 @@ func judgeOp(c *core.Ctx, spec gens.JPExpr, x jp.Expr, before any, sel selection
 			}
 			if o.one() && !sel.empty && eqTree(after, before) && !(o.base() == "Modify" && o.Mod != "replace") && !eqTree(exps[0], before) {
 				c.Add("one_form_changed_nothing_although_locations_are_selected", 1)
+				lastOne = "nothing"
 			} else if o.one() && sel.ordered && len(sel.cands[0]) > 1 && !eqTree(after, exps[0]) {
 				c.Add("one_form_changed_a_member_other_than_the_first", 1)
 			}
@@ -992,7 +996,12 @@ func judgeOp(c *core.Ctx, spec gens.JPExpr, x jp.Expr, before any, sel selection
 		// partial application: the operation was applied to some of the selected
 		// locations before it gave up
 		for _, cand := range sel.cands {
-			hs := outermost(dedupe(cand))
+			// any subset, nested hits included: an inner location may have been
+			// changed before the operation gave up at an outer one
+			hs := dedupe(cand)
+			if len(hs) > 10 {
+				hs = outermost(hs)
+			}
 			if len(hs) > 10 {
 				continue
 			}
@@ -1191,7 +1200,13 @@ func subtree(v any) *tree {
 // ------------------------------------------------------------------ one (path, document, representation, operation)
 
 // runOp executes op on a fresh copy and judges it.
+// lastOne is what the last judged *One operation did when it was accepted:
+// "one" (a selected location changed), "nothing" (locations are selected but
+// the document is unchanged, which "at most one" allows) or "" (anything else).
+var lastOne string
+
 func runOp(c *core.Ctx, spec gens.JPExpr, x jp.Expr, t *tree, sel selection, creating bool, repr string, o opT) *finding {
+	lastOne = ""
 	if repr == "gen" && o.base() == "Modify" && (o.Mod == "replace" || o.Mod == "replace-unchanged") && values()[o.Val] == nil {
 		return nil // a nil replacement is not a gen.Node: not expressible
 	}
@@ -1233,6 +1248,19 @@ func fails(c *core.Ctx, spec gens.JPExpr, t *tree, repr string, o opT, kind stri
 	if t.multi {
 		rounds = 3
 	}
+	if kind == oneDiffers {
+		if t.multi || !o.one() {
+			return nil
+		}
+		if runOp(c, spec, x, t, sel, creating, "simple", o) != nil || lastOne == "" {
+			return nil
+		}
+		was := lastOne
+		if runOp(c, spec, x, t, sel, creating, "gen", o) != nil || lastOne == "" || lastOne == was {
+			return nil
+		}
+		return &finding{oneDiffers, "on simple data the operation changed " + was, "on gen data it changed " + lastOne}
+	}
 	for i := 0; i < rounds; i++ {
 		if f := runOp(c, spec, x, t, sel, creating, repr, o); f != nil && f.kind == kind {
 			return f
@@ -1240,6 +1268,8 @@ func fails(c *core.Ctx, spec gens.JPExpr, t *tree, repr string, o opT, kind stri
 	}
 	return nil
 }
+
+const oneDiffers = "one-form-differs-simple-gen"
 
 // children lists the container nodes below the root that the first fragment
 // could hand to the rest of the path: the direct members (every descendant
@@ -1311,6 +1341,24 @@ func signature(spec gens.JPExpr, t *tree, repr string, o opT, f *finding, filter
 	if o.Must {
 		name = "Must" + name
 	}
+	nDesc := 0
+	for _, fr := range spec {
+		if fr.K == "desc" {
+			nDesc++
+		}
+	}
+	if f.kind != oneDiffers && f.kind != "cyclic-result" && !strings.HasPrefix(f.kind, "panic") {
+		switch {
+		case nDesc >= 2:
+			// known finding: two descents select a location several times and the
+			// operation is applied to it again on the already changed document
+			return core.Sig(name, "two-descents", "locations-selected-twice", f.kind)
+		case nDesc == 1 && spec.HasFrag("filter"):
+			// known finding: under a descent the containers overlap and a filter is
+			// decided on the partly changed document, not on the before-state
+			return core.Sig(name, "desc+filter", "selection-on-changed-document", f.kind)
+		}
+	}
 	if last := spec[len(spec)-1]; len(spec) > 2 && last.RootFilter() && filterBlamed {
 		return core.Sig(name, "filter-with-$", "pos=last", repr, "-", f.kind)
 	}
@@ -1323,13 +1371,13 @@ func signature(spec gens.JPExpr, t *tree, repr string, o opT, f *finding, filter
 
 func report(c *core.Ctx, spec gens.JPExpr, t *tree, repr string, o opT, f *finding) {
 	s, st, g := shrink(c, spec, t, repr, o, f, 0)
-	if repr != "simple" {
+	if repr != "simple" && g.kind != oneDiffers {
 		// the shrunk case may fail on the simple form as well: key it there
 		if gs := fails(c, s, st, "simple", o, g.kind); gs != nil {
 			repr, g = "simple", gs
 		}
 	}
-	if o.one() {
+	if o.one() && g.kind != oneDiffers {
 		all := o
 		all.Name = o.base()
 		if ga := fails(c, s, st, repr, all, g.kind); ga != nil {
@@ -1337,7 +1385,7 @@ func report(c *core.Ctx, spec gens.JPExpr, t *tree, repr string, o opT, f *findi
 		}
 	}
 	x := s.Build()
-	if inclusiveReading(c, s, x, st, repr, o) {
+	if g.kind != oneDiffers && inclusiveReading(c, s, x, st, repr, o) {
 		// known finding: the mutating operations read a slice inclusively. Only
 		// cases whose whole outcome is what that reading prescribes are keyed here.
 		name := o.label()
@@ -1384,6 +1432,54 @@ func inclusiveReading(c *core.Ctx, spec gens.JPExpr, x jp.Expr, t *tree, repr st
 	return true
 }
 
+// setCyclesUnderDescents is set by cycleProbe: Set through two descents with a
+// container value links the value into itself, and on slightly larger
+// documents the call never returns (memory grows until the worker is killed).
+// While that is so, such calls cannot be made in-process: they are skipped and
+// counted, and the defect is reported once by the probe.
+var setCyclesUnderDescents bool
+
+func cycleProbe(c *core.Ctx, reportIt bool) {
+	spec := gens.JPExpr{gens.JPSimple("root"), gens.JPSimple("desc"), gens.JPSimple("desc"), gens.JPChild("x")}
+	data := []any{map[string]any{}}
+	doc := gens.Clone(data)
+	var err error
+	pv := func() (p any) {
+		defer func() { p = recover() }()
+		err = spec.Build().Set(doc, map[string]any{"z": int64(1)})
+		return nil
+	}()
+	if pv == nil && !tooDeep(doc, 0) {
+		return
+	}
+	setCyclesUnderDescents = true
+	if reportIt {
+		t := newTree(data)
+		o := opT{Name: "Set", Val: 4}
+		cs := caseT{Path: spec, Text: spec.Build().String(), Data: t.encoded(), Repr: "simple", Op: o, Kind: "cyclic-result"}
+		c.Fail(core.Sig("Set", "desc-desc", "container-value", "cyclic-result-or-does-not-terminate"), cs, 4000,
+			"[{x:{z:1}}] or an error",
+			fmt.Sprintf("a document linked into itself (error %v, panic %v); on [{} {}] the call never returns", err, pv))
+	}
+}
+
+func skipSetUnderDescents(spec gens.JPExpr, o opT) bool {
+	if !setCyclesUnderDescents || o.base() != "Set" {
+		return false
+	}
+	n := 0
+	for _, f := range spec {
+		if f.K == "desc" {
+			n++
+		}
+	}
+	if n < 2 {
+		return false
+	}
+	kind, _ := gens.NodeKind(values()[o.Val])
+	return kind != "scalar"
+}
+
 // ------------------------------------------------------------------ driver
 
 type fkey struct{ op, kind string }
@@ -1405,6 +1501,7 @@ func judge(c *core.Ctx, spec gens.JPExpr, x jp.Expr, t *tree, must bool) {
 	}
 	ops := opsFor(spec, trivial, must)
 	var onSimple map[fkey]bool
+	oneOnSimple := map[string]string{}
 	for _, repr := range []string{"simple", "gen"} {
 		seen := map[fkey]bool{}
 		pristine := t.simple
@@ -1413,6 +1510,10 @@ func judge(c *core.Ctx, spec gens.JPExpr, x jp.Expr, t *tree, must bool) {
 		}
 		var work any // a copy no operation has changed yet (nothing-selected cases reuse it)
 		for _, o := range ops {
+			if skipSetUnderDescents(spec, o) {
+				c.Add("set_calls_skipped_two_descents_and_container_value_do_not_terminate", 1)
+				continue
+			}
 			for i := 0; i < rounds; i++ {
 				var f *finding
 				if sel.empty && !(creating && o.base() == "Set") {
@@ -1428,6 +1529,15 @@ func judge(c *core.Ctx, spec gens.JPExpr, x jp.Expr, t *tree, must bool) {
 					f = judgeOp(c, spec, x, t.simple, sel, o, false, out, repr)
 				} else {
 					f = runOp(c, spec, x, t, sel, creating && o.base() == "Set", repr, o)
+					if f == nil && o.one() && !t.multi && lastOne != "" {
+						// "behave the same on simple and gen data": a *One form that
+						// changes a location on one form and nothing on the other
+						if repr == "simple" {
+							oneOnSimple[o.String()] = lastOne
+						} else if was := oneOnSimple[o.String()]; was != "" && was != lastOne {
+							f = &finding{oneDiffers, "on simple data the operation changed " + was, "on gen data it changed " + lastOne}
+						}
+					}
 				}
 				if f == nil {
 					continue
@@ -1456,6 +1566,7 @@ func judge(c *core.Ctx, spec gens.JPExpr, x jp.Expr, t *tree, must bool) {
 
 func run(c *core.Ctx) {
 	defer debug.SetGCPercent(debug.SetGCPercent(3200))
+	cycleProbe(c, c.Shard == 0)
 	type pass struct {
 		alpha *gens.PathAlphabet
 		k     int
@@ -1524,6 +1635,30 @@ func replay(c *core.Ctx, raw json.RawMessage) {
 		return
 	}
 	creating := cs.Op.base() == "Set" && creation(cs.Path, t.simple)
+	cycleProbe(c, false)
+	if cs.Kind == "cyclic-result" && len(cs.Path) == 4 && cs.Path[1].K == "desc" && cs.Path[2].K == "desc" {
+		cycleProbe(c, true)
+		return
+	}
+	if skipSetUnderDescents(cs.Path, cs.Op) {
+		return
+	}
+	if cs.Kind == oneDiffers {
+		if f := fails(c, cs.Path, t, cs.Repr, cs.Op, oneDiffers); f != nil {
+			c.Fail(signature(cs.Path, t, cs.Repr, cs.Op, f, false), cs, len(cs.Path), f.exp, f.obs)
+		}
+		return
+	}
+	if cs.Kind == "slice-inclusive-reading" {
+		if f := runOp(c, cs.Path, x, t, sel, creating, cs.Repr, cs.Op); f != nil && inclusiveReading(c, cs.Path, x, t, cs.Repr, cs.Op) {
+			name := cs.Op.label()
+			if cs.Op.Must {
+				name = "Must" + name
+			}
+			c.Fail(core.Sig(name, "slice-inclusive-reading"), cs, len(cs.Path), f.exp, f.obs)
+		}
+		return
+	}
 	for i := 0; i < 3; i++ {
 		if f := runOp(c, cs.Path, x, t, sel, creating, cs.Repr, cs.Op); f != nil && (cs.Kind == "" || f.kind == cs.Kind) {
 			c.Fail(signature(cs.Path, t, cs.Repr, cs.Op, f, filterBlamed(c, cs.Path, t, cs.Repr, cs.Op, f)), cs, len(cs.Path), f.exp, f.obs)
